@@ -2188,20 +2188,17 @@ class RawAlgorithmsMixIn:
         Lam_data    = cls._diag(lam_data)
         Lambar_data = cls._diag(lambar_data)
 
-        # STEP 1: compute H
+        # STEP 1: compute H = 1/(lam_n - lam_m) as a Taylor polynomial (it is not constant along the curve)
         for m in range(N):
             for n in range(N):
+                tmp = lam_data[:,:,n] -   lam_data[:,:,m]
                 for p in range(P):
-                    tmp = lam_data[0,p,n] - lam_data[0,p,m]
-                    if numpy.abs(tmp) > 1e-8:
-                        for d in range(D):
-                            H[d,p,m,n] = 1./tmp
-                # tmp = lam_data[:,:,n] -   lam_data[:,:,m]
-                # cls._truediv(Id, tmp, out = H[:,:,m,n])
+                    if numpy.abs(tmp[0,p]) > 1e-8:
+                        cls._truediv(Id[:,p:p+1], tmp[:,p:p+1], out = H[:,p:p+1,m,n])
 
-        # STEP 2: compute Lbar +  H * Q^T Qbar
+        # STEP 2: compute Lbar +  H * Q^T Qbar  (element-wise product of Taylor polynomials)
         cls._dot(cls._transpose(Q_data), Qbar_data, out = tmp1)
-        tmp1[...] *= H[...]
+        tmp1 = cls._mul(tmp1, H, out = numpy.zeros_like(tmp1))
         tmp1[...] += Lambar_data[...]
 
         # STEP 3: compute Q ( Lbar +  H * Q^T Qbar ) Q^T
